@@ -99,18 +99,15 @@ CHECKS = {
             "committed xor silently dropped at idle",
             "Order/once/accounted invariants checked exhaustively on Pipeline.tla and evaluated by TLC on every recorded step of the real pipeline "
             "under constructed and random schedules (several sources/streams, hold/collapse runs, refusals).", CORE_NOTE, "DESIGN.md §6 C02"),
-    "C05": ("same machinery as C01 with capacity-1..3 scenarios on both pools; monitors: owned events <= capacity, single owner per event "
-            "object, pool counter within [0,capacity], zero in use and no waiter at idle",
-            "Pool-occupancy invariants checked on Pipeline.tla and evaluated by TLC on traces of the real pools (std and low_memory) at capacities "
-            "down to 1 with concurrent readers, discards, holds and decode failures.", CORE_NOTE, "DESIGN.md §6 C05"),
-    "C08": ("same machinery as C01 with batcher-centred scenarios; monitors: batch size bound, batches committed in sequence order each after "
-            "its own send returned, every added event committed exactly once",
-            "Batch-order invariants checked on Pipeline.tla (all completion orders of 2 workers) and evaluated by TLC on traces of the real Batcher "
-            "under schedules in which a later batch's send returns first.", CORE_NOTE, "DESIGN.md §6 C08"),
-    "C09": ("same machinery as C01 with failing sends, retries 0..2, with/without dead queue; monitors: attempts before give-up, no commit "
-            "while retrying, one Fail per event, committed by the dead queue alone / error callback once and committed by main once",
-            "Retry/dead-queue routing invariants checked on Pipeline.tla (all outcome sequences within the failure bound) and evaluated by TLC on "
-            "traces of the real RetriableBatcher with scripted and random failures.", CORE_NOTE, "DESIGN.md §6 C09"),
+    "C05": ("TLC model checking of the pool protocol specs (EventPoolStd: SingleOwner, NoNilHandout, Bounded, ZeroAtEnd; EventPoolLowMem: Bounded, CounterSound) and of Pipeline.tla's pool part; holder-counting stress and size-class sweep on the real pools; pipeline runs at capacities 1..3 (refusals, holds, splits) whose ownership and in-use samples are validated by TLC on every recorded step",
+            'Slot ownership and the capacity bound are proven for both pool protocols in small scope; on the real pools the harness counts events held at one instant under 4 and 16 concurrent readers (capacity 1..3, both kinds), cycles every size-class boundary up to 2^31 (in use back to zero, no slot lost), and the observer checks owned<=capacity, single owner per object, counter in [0,capacity], zero and no waiter at idle on every pipeline trace.',
+            CORE_NOTE, "DESIGN.md §6 C05"),
+    "C08": ('TLC model checking incl. liveness of BatcherProto.tla (mutex/channel/worker granularity, Stop, heartbeat; send-after-unlock kept as a spec mutant that must reach the closed-channel send) and of Pipeline.tla; the real Batcher driven directly (byte/count bounds, heartbeat-only staleness, regular/child/child-parent mixes, scripted completion orders, Stop racing with 8 adders in a child process) and inside the pipeline; traces validated by TLC (PipelineMon) and model-generated runs checked for conformance (PipelineTrace)',
+            'SizeBound (count, bytes), CommitInSeqOrder, CommitOnlySent, CommitOnce, Staleness, AllCommitted and StopTerminates are proven on BatcherProto; every clause is evaluated by TLC on each step of traces of the real Batcher under schedules where later batches finish first, batches hold only split parents, a non-first batch is given up, and Stop hits concurrent Adds (300/2000 trials).',
+            CORE_NOTE, "DESIGN.md §6 C08"),
+    "C09": ('same machinery as C01 with failing sends, retries 0..5, with/without dead queue, split parents/children in given-up batches; monitors: attempts before give-up, lower bound retention*mult^(k-1)/2 on the k-th pause (time stamps), no commit while retrying, one Fail per event, committed by the dead queue alone / error callback once and committed by main once, payload identity of dead-queued events',
+            'Retry/dead-queue routing invariants are checked on Pipeline.tla (all outcome sequences within the failure bound) and evaluated by TLC on traces of the real RetriableBatcher with scripted and random failures, several workers (shared back-off state shows as a pause below its lower bound) and the real Router.',
+            CORE_NOTE, "DESIGN.md §6 C09"),
     "C10": ("TLC model checking of KafkaInput.tla (routing x completion orders; spread routing named as deviation) + traces of the real "
             "kafka Plugin.Commit / pconsumer.consume / franz-go marks in a real spread-mode pipeline validated by TLC (KafkaMon.tla) + packing "
             "boundary cases replayed on the real assemble/disassemble functions",
@@ -131,16 +128,9 @@ CHECKS = {
             "Trusted: harness-owned gate action and durable output around the real file input + pipeline; kill instants at gate/commit "
             "granularity (the save protocol itself is C07); one file plus rotated predecessors; a line counts as lost after 6 s without progress; "
             "symlinks, lz4, remove_after, offsets_op tail/reset not covered.", "DESIGN.md §6 C03"),
-    "C04": ("TLC model checking incl. liveness under fairness of detailed pool protocol specs (EventPoolLowMem/EventPoolStd: atomics, lock, "
-            "cond-var, heartbeat) and of Pipeline.tla; TLC trap schedule of the lost-wake-up window replayed on the real pools through "
-            "verif hook gates; end-to-end progress runs of the real pipeline validated by TLC",
-            "NoWedge and eventual completion are model-checked for both pool protocols and for the pipeline model under weak fairness, and the "
-            "mechanisms (heartbeat condition) are shown necessary by spec mutants; the window TLC constructs (Broadcast between availability "
-            "check and Cond.Wait) is then reproduced deterministically on the real pools and the getter must resume within a bound; real "
-            "pipeline runs at capacity 1, single processor, time-out-only flushes and timer-only batch flushes must reach idle.",
-            "Trusted: bounded-time is judged by generous wall-clock bounds with the heartbeat interval shortened in-package; Go scheduler "
-            "fairness; stream/processor protocol is covered at the granularity of Pipeline.tla (joinStream/attach/instantGet/blockGet/time-out), "
-            "not lock by lock.", "DESIGN.md §6 C04"),
+    "C04": ('TLC model checking incl. liveness under fairness of detailed protocol specs (EventPoolLowMem/EventPoolStd: atomics, lock, cond-var, heartbeat; StreamProto: stream/streamer at mutex granularity) and of Pipeline.tla, each mechanism shown necessary by a spec mutant; TLC-constructed windows replayed on the real code (lost wake-up through verif hook gates; put || tryUnblock on a blocked stream); attend / timeout-then-detach / progress runs of the real pipeline validated by TLC',
+            'NoWedge, NoEventLost, ChargedRight and eventual completion are model-checked for both pool protocols, the stream protocol and the pipeline model under weak fairness; the windows TLC constructs are reproduced deterministically on the real pools and streams and progress must resume within a bound; real pipeline runs at capacity 1, single processor, time-out-only flushes, timer-only batch flushes, back-to-back charges of K streams and detach-after-time-out sequences must reach idle with every stream attended.',
+            'Trusted: bounded-time is judged by generous wall-clock bounds with heartbeat intervals shortened in-package; Go scheduler fairness; the stream protocol is replayed at the granularity of Pipeline.tla plus the constructed windows, StreamProto itself is design level.', "DESIGN.md §6 C04"),
     "C06": ("TLA+ transcription of the read loop model-checked against a declarative line/offset oracle (TLC, exhaustive "
             "small scope); every TLC-exported case replayed on the real worker.work and compared",
             "TLC proves on the whole small-scope case space (all contents over {x,\\n} up to the bound x all splits into appends x "
